@@ -50,6 +50,14 @@ func c12Cells(full bool) []lat {
 			}
 		}
 	}
+	// a deployment that demands node names on every send: the library's own traffic must always carry them
+	for _, e := range []ek{{"off", 0}, {"v1", 16}} {
+		for _, lb := range []string{"", "L"} {
+			for _, ipn := range []bool{true, false} {
+				out = append(out, lat{Enc: e.e, KeyLen: e.k, Comp: !ipn, Label: lb, PeerPMax: 5, IPNames: ipn, ReqNames: true})
+			}
+		}
+	}
 	// the documented roll-out stage: one side already holds a key but neither seals nor insists on sealed
 	// traffic, the other side still speaks plaintext (with and without the checksum header in front)
 	for _, ipn := range []bool{true, false} {
@@ -365,6 +373,13 @@ func runC12Cell(t *testing.T, l lat, rep *Report, boundaryOnly bool) (fails []c1
 				err := api.send()
 				settle()
 				cases++
+				if l.ReqNames && (api.name == "SendToAddress(addr)" || api.name == "SendTo") {
+					// the configuration demands a recipient name and the caller gave none: refused, nothing sent
+					if err == nil || len(p.Tap) != 0 || r.D.NumMsgs() != before {
+						fail("user-api:"+api.name, "RequireNodeNames: err=%v, %d packets left the node, delegate received %d messages", err, len(p.Tap), r.D.NumMsgs()-before)
+					}
+					continue
+				}
 				if api.name != "SendToTCP" {
 					checkPeel("user-api:"+api.name, append([]byte{ml.VUserMsg}, pl...), api.name == "SendToUDP")
 				}
